@@ -41,6 +41,13 @@ type VerifSnapshot struct {
 	Mtx    bool
 	Ldr    bool
 
+	// fingerprints of the raw memory of the configuration record, of its log
+	// record and (Condition only) of the condition record: they change when ANY
+	// field changes, fields a later version may add included
+	CfgRaw  uint64
+	LogRaw  uint64
+	CondRaw uint64
+
 	// addresses (for race-report classification)
 	CfgAddr uintptr
 	CfgSize uintptr
@@ -59,6 +66,16 @@ type VerifSnapshot struct {
 	Kw string
 	Op Operator
 	Ex any
+}
+
+// verifRaw is an FNV-1a hash over n bytes of memory starting at p.
+func verifRaw(p unsafe.Pointer, n uintptr) uint64 {
+	h := uint64(14695981039346656037)
+	for _, b := range unsafe.Slice((*byte)(p), int(n)) {
+		h ^= uint64(b)
+		h *= 1099511628211
+	}
+	return h
 }
 
 func verifFnID(p unsafe.Pointer) uintptr {
@@ -108,7 +125,9 @@ func verifDumpCfg(s *VerifSnapshot, c *nodeConfig) {
 		s.LogSys = true
 		s.LogPtr = uintptr(unsafe.Pointer(c.log.log))
 		s.LogLvl = uint16(c.log.lvl)
+		s.LogRaw = verifRaw(unsafe.Pointer(c.log), unsafe.Sizeof(*c.log))
 	}
+	s.CfgRaw = verifRaw(unsafe.Pointer(c), unsafe.Sizeof(*c))
 	s.Mtx = c.mtx != nil
 	s.Ldr = c.ldr != nil
 	s.CfgAddr = uintptr(unsafe.Pointer(c))
@@ -145,6 +164,7 @@ func verifDumpCond(r *condition) (s VerifSnapshot) {
 		return
 	}
 	verifDumpCfg(&s, r.cfg)
+	s.CondRaw = verifRaw(unsafe.Pointer(r), unsafe.Sizeof(*r))
 	s.Kw = r.kw
 	s.Op = r.op
 	s.Ex = r.ex
